@@ -363,6 +363,18 @@ fn hostile_cases(jail_root: &Path, rng: &mut Rng, n_random: usize) -> Vec<Hostil
             add(&format!("symlink-to-existing-outside:{lbl}:{:o}", lmode & 0o7777), vec![hfile("/a/", "lnk", lmode, b"", &tgt), hfile("/a/", "zz-after", reg, b"an ordinary entry after the link", "")]);
         }
     }
+    // a link to an outside directory followed by ANOTHER LINK below it (through the directory name and
+    // through a slash in the base name), also under the name of something that exists out there
+    for (lbl, tgt) in [("abs", outside.clone()), ("rel", "../../../../../../../outside-dir".to_string())] {
+        for second in ["l2", "secret", "sub"] {
+            add(&format!("symlink-then-symlink-below-dirname:{lbl}"), vec![hfile("/a/", "lnk", 0o120777, b"", &tgt), hfile("/a/lnk/", second, 0o120777, b"", "/etc/hostname-does-not-matter")]);
+            add(&format!("symlink-then-symlink-below-basename:{lbl}"), vec![hfile("/a/", "lnk", 0o120777, b"", &tgt), hfile("/a/", &format!("lnk/{second}"), 0o120777, b"", "planted-link-target")]);
+        }
+    }
+    // ordinary entries for a target directory that ALREADY EXISTS and holds links to the outside
+    // (the harness plants them before extraction, see `pre_populate`)
+    add("pre-populated-target", vec![hfile("/plain/conf.d/", "app.conf", reg, b"ordinary file", ""), hfile("/plain/", "readme", reg, b"ordinary file 2", ""), hfile("/other/", "x", reg, b"x", "")]);
+    add("pre-populated-target", vec![hfile("/plain/", "conf.d", 0o040755, b"", ""), hfile("/plain/conf.d/", "app.conf", reg, b"ordinary file", "")]);
     // a symlink entry whose path is the extraction target itself, followed by ordinary entries
     for (dir, base) in [("/", ""), ("/", "."), ("/./", ""), ("", ""), ("/", "./"), ("//", "")] {
         for tgt in [outside.clone(), "sibling".to_string()] {
@@ -604,6 +616,13 @@ fn run(ctx: &Ctx, rep: &Report) {
             _ => jail.root.join("alias").join("target"),
         };
         rep.count(["hostile.destination.canonical", "hostile.destination.dot-dotdot", "hostile.destination.through-symlink"][(i % 3) as usize], 1);
+        if h.label.starts_with("pre-populated-target") {
+            // the target exists before extraction and its first-level names are links to the outside
+            let _ = std::fs::create_dir_all(&jail.target);
+            for (name, to) in [("plain", jail.root.join("outside-dir")), ("other", jail.root.join("outside-dir").join("sub"))] {
+                let _ = std::os::unix::fs::symlink(&to, jail.target.join(name));
+            }
+        }
         let r = guard(|| pkg.extract(&spelled));
         let diff = jail_diff(&jail);
         rep.nontrivial(crate::util::rng::hash_bytes(&bytes) ^ i);
